@@ -60,6 +60,7 @@ fn dispatch(sub: &str, a: &Args) -> Option<Report> {
   let a = a;
   Some(match sub {
     "agg-replay" => agg::replay(a),
+    "thread-clients" => derive::thread_clients(a),
     "derive-replay" => derive::replay(a),
     "field-record" => field::record(a),
     "shamir-record" => shamir::record(a),
